@@ -225,6 +225,20 @@ static void trajectory(const Cfg& cfg, vh::Rng& r, int N) {
     bool failed = false;
     for (int k = 0; k < N && !failed; ++k) {
         fa.lock(locked[k]);
+        if (r.below(50) == 0) {
+            //a rejected call (len(x) != len(d)) is not input: it must not move the coefficients or the delay line
+            A xb(3), db(2), yb, eb;
+            for (int i = 0; i < 3; ++i) {
+                xb[i] = El<T>::rnd(r, 5.0);
+            }
+            try {
+                fa.process(xb, db, yb, eb);
+                vh::violation("C12/size_mismatch_accepted/" + kk, cs + ": process(x[3], d[2]) did not throw");
+                return;
+            } catch (const std::exception&) {
+                vh::obs_add("rejected_calls_between_samples");
+            }
+        }
         const A cb = fa.coeffs();
         A xi(1), di(1), yo, eo;
         xi[0] = x[k];
